@@ -430,3 +430,11 @@ def c14(ctx):
     """Naming-stress programs validated against the oracle, plus solver-checked
     equivalence of every symbol that several modules define."""
     return multi_tv(ctx, 'C14', merge=True)
+
+
+@prop('C09', level='other', title='values cross the Go/C boundary intact')
+def c09(ctx):
+    """(a) C-string / C-buffer helpers of the runtime on arbitrary strings and
+    arbitrary previous buffer contents."""
+    q = ctx.quick
+    return [rt_job(ctx, 'cstr', [H(ctx, 'C09', 'cstr_h.go')], unwind=16, deadline_s=300 if q else 1200)]
